@@ -299,6 +299,8 @@ static void run() {
             if (n >= 128 || n > kmax(k)) vp::nontrivial(vp::mix(n, k));
             vp::cls(n > kmax(k) ? "length-over-maximum" : "length-in-range");
         }
+        if (k == 0 && a.shard == 1 % a.nshards) for (uint64_t n : std::vector<uint64_t>{(1ull << 21) - 1, 1ull << 21, (1ull << 21) + 1}) { run_case(mk(1, k, n)); run_case(mk(5, k, n)); vp::cls("varint-group-boundary-with-payload"); }
+        if (a.shard == 0) for (unsigned g = 1; g <= 9; g++) for (int d = -1; d <= 1; d++) { uint64_t n = (1ull << (7 * g)) + (uint64_t)(int64_t)d; if (n <= (uint64_t)SSIZE_MAX) { run_case(mk(9, k, n)); vp::nontrivial(vp::mix(n, k + 77)); vp::cls("varint-group-boundaries"); } }
         if (a.shard == 0) for (uint64_t n : std::vector<uint64_t>{0xffffffffull - 1, 0xffffffffull, 0x100000000ull, 0x100000001ull, (uint64_t)SSIZE_MAX - 1, (uint64_t)SSIZE_MAX, (uint64_t)SSIZE_MAX + 1, ~(uint64_t)0}) {
             run_case(mk(9, k, n)); vp::nontrivial(vp::mix(n, k + 50)); vp::cls("huge-lengths");
         }
